@@ -1,6 +1,8 @@
 package main
 
 import (
+	"runtime/debug"
+	"os"
 	"fmt"
 	"math/big"
 	"sort"
@@ -90,6 +92,12 @@ func newDexTracker(w *World) *dexTracker {
 			f.offerDenom, f.demandDenom = o.OfferCoinDenom, o.DemandCoinDenom
 		default:
 			return
+		}
+		if os.Getenv("VERIF_DEBUG_FILLS") != "" {
+			fmt.Printf("FILL user=%v id=%d pool=%d buy=%v amt=%s price=%s paid=%s recv=%s orderAmt=%s\n", f.user, f.orderID, f.poolID, f.buy, amt, price, paid, received, f.oAmount)
+			if os.Getenv("VERIF_DEBUG_FILLS") == "2" {
+				debug.PrintStack()
+			}
 		}
 		t.fills = append(t.fills, f)
 	}
@@ -311,6 +319,7 @@ type ordAgg struct {
 	limit         sdk.Dec
 	maxAmt, offer sdk.Int
 	known         bool
+	carried       bool
 }
 
 func ratDec(d sdk.Dec) *big.Rat { return new(big.Rat).SetFrac(d.BigInt(), oneE18) }
@@ -359,6 +368,7 @@ func (t *dexTracker) checkFills(w *World, s *dexSnap) {
 				if so, ok := s.orders[okey{pair.AppId, pair.Id, f.orderID}]; ok && so.Orderer == f.orderer {
 					o.known = true
 					o.limit, o.maxAmt, o.offer = so.Price, so.OpenAmount, so.RemainingOfferCoin.Amount
+					o.carried = so.OpenAmount.LT(so.Amount)
 				}
 			} else {
 				dir := "sell"
@@ -427,6 +437,25 @@ func (t *dexTracker) checkFills(w *World, s *dexSnap) {
 				continue
 			}
 			w.Stats.Probe("c05.order_checked")
+			if o.user && o.buy && o.amt.LT(o.maxAmt) && ratInt(o.offer.Sub(o.paid)).Cmp(ratDec(o.limit)) < 0 {
+				// the fill was cut by the order's remaining offer coin, not by its open amount or the other side
+				w.Stats.Probe("c05.buy_fill_cut_by_offer_coin")
+				if o.carried {
+					w.Stats.Probe("c05.carried_buy_fill_cut_by_offer_coin")
+					if os.Getenv("VERIF_DEBUG_FILLS") != "" {
+						fmt.Printf("CUT %s: %s limit=%s maxAmt=%s amt=%s offer=%s paid=%s n=%d\n", where, o.key, o.limit, o.maxAmt, o.amt, o.offer, o.paid, o.n)
+					}
+				}
+			}
+			if o.user && o.buy && o.carried {
+				w.Stats.Probe("c05.carried_buy_order_filled_again")
+				if o.amt.Equal(o.maxAmt) {
+					w.Stats.Probe("c05.carried_buy_order_completed")
+					if new(big.Rat).Mul(ratDec(o.limit), ratInt(o.amt)).Cmp(ratInt(o.paid.SubRaw(1))) < 0 {
+						w.Stats.Probe("c05.carried_buy_order_completed_at_limit")
+					}
+				}
+			}
 			if o.paid.GT(o.offer) {
 				t.report("C05", "c05.paid_gt_offer", ordKind(o), fmt.Sprintf("%s: %s paid %s but its offer coin was %s", where, o.key, o.paid, o.offer))
 			}
